@@ -107,8 +107,10 @@ Assignments(seq, E) ==
       base == [r \in {v.route : v \in uni} |-> LET l == (CHOOSE v \in uni : v.route = r).lab IN CHOOSE i \in 1..Len(seq) : seq[i] = l]
   IN IF dupL = {} THEN {base} ELSE {Merge(base, g) : g \in AssignDup(dupL, seq, E)}
 AssignmentCount(E) ==    \* how many assignments there would be (validators skip absurdly ambiguous records)
-  LET RECURSIVE Fact(_)  Fact(n) == IF n <= 1 THEN 1 ELSE n * Fact(n - 1)
-      RECURSIVE Prod(_)  Prod(Ls) == IF Ls = {} THEN 1 ELSE LET l == CHOOSE x \in Ls : TRUE IN Fact(Cardinality({v \in E : v.lab = l})) * Prod(Ls \ {l})
+  \* saturating (32-bit integers): both factors are capped at 10^4, the product stops growing once it exceeds 10^4
+  LET RECURSIVE Fact(_)  Fact(n) == IF n <= 1 THEN 1 ELSE IF n > 7 THEN 10000 ELSE n * Fact(n - 1)
+      RECURSIVE Prod(_)  Prod(Ls) == IF Ls = {} THEN 1 ELSE LET l == CHOOSE x \in Ls : TRUE  rest == Prod(Ls \ {l}) IN
+                                     IF rest > 10000 THEN rest ELSE Fact(Cardinality({v \in E : v.lab = l})) * rest
   IN Prod({v.lab : v \in E})
 
 (* ---- depth-first order without search over sibling choices ----
